@@ -90,6 +90,9 @@ def compare_path(scn, p, ev, inp, ref):
             rv = w["balance"].get(a, inp.get("balances", {}).get(a, 0))
             if obs["balance"][a] != rv:
                 return {"what": f"balance[{hex(a)}]", "halmos": obs["balance"][a], "reference": rv}
+        if "logs" in ref and obs["logs"] != [tuple(l) for l in ref["logs"]]:
+            return {"what": "event logs", "halmos": [(hex(a), [hex(t) for t in ts], d.hex()) for a, ts, d in obs["logs"]][:6],
+                    "reference": [(hex(a), [hex(t) for t in ts], d.hex()) for a, ts, d in ref["logs"]][:6]}
         rcode = {a: c for a, c in w["code"].items()}
         for a in set(rcode) | set(obs["code"]):
             if obs["code"].get(a, b"") != rcode.get(a, b""):
